@@ -761,7 +761,7 @@ theorem negative_cutoff_breaks_filter :
   decide +kernel
 
 /-- `LeafLinear` has content beyond multipliers of `l`: a map that is linear but moves the constant mode is not
- admitted (`φ (a₀, a₁) = (a₀ / 2, a₁)`) -/
+ allowed (`φ (a₀, a₁) = (a₀ / 2, a₁)`) -/
 example : ¬ LeafLinear ℚ (fun a : ℚ × ℚ => (a.1 / 2, a.2)) toyOps.oneModal := by
   intro h
   have := h.map_one
